@@ -172,13 +172,15 @@ def generate(rng, tier):
         runs = [dict(kind="record", enabled=True, prm=PRM, op=P, save_fails=False)]
         for r in range(rng.randrange(1, 4)):
             runs.append(dict(kind="play", target=0, pf={"kind": "op", "op": rd.clean(Pp)}, enabled=rng.random() < 0.5))
-        cases.append(dict(draws=[], runs=runs, cassette="memory", store_check=True))
+        cases.append(dict(draws=[], runs=runs, cassette="memory", store_check=True, unshare=True))
     return cases
 
 
 def direct(case, obs):
     if "driver_exception" in obs:
         return [("driver", obs["driver_exception"] + obs.get("trace", "")[-400:])]
+    if f07c_affected(obs):
+        return []          # region of known finding F07c (reported by C01): nothing is concluded from such a case
     fails = []
     plays = [(i, ob) for i, (run, ob) in enumerate(zip(case["runs"], obs["runs"])) if run["kind"] == "play"]
     for i, ob in plays:
